@@ -45,7 +45,9 @@ def variables(draw, max_vars=4, allow_qe=True):
 
         per_component = (not scalar) and draw(st.booleans())
         b = [pair() for _ in range(n)] if per_component else pair()
-        out.append({"arg": a, "key": f"pipeline.charge_collection.cal.arguments.{a}", "scalar": scalar, "n": n, "log": log, "boundaries": b})
+        out.append({"arg": a, "key": f"pipeline.charge_collection.cal.arguments.{a}", "scalar": scalar, "n": n, "log": log, "boundaries": b,
+                    # the placeholders of a vector given as a tuple instead of a list (Python API; the YAML rendering always produces a list)
+                    "as_tuple": (not scalar) and draw(st.sampled_from([False, False, True]))})
     if allow_qe and draw(st.sampled_from([False, False, True])):
         log = draw(st.booleans())
         out.insert(draw(st.integers(0, len(out))), {"arg": "qe", "key": "detector.characteristics.quantum_efficiency", "scalar": True, "n": 1,
@@ -84,7 +86,8 @@ def _spec(case, tmp, algo=None, **mode_extra):
         if v["arg"] != "qe":
             args[v["arg"]] = 1.0 if v["scalar"] else [1.0] * v["n"]
     pipe = {"groups": {"charge_collection": [{"name": "cal", "func": "vprobes.models.cal_probe", "enabled": True, "arguments": args}]}, "yaml_perm": 0}
-    params = [{"key": v["key"], "values": "_" if v["scalar"] else ["_"] * v["n"], "logarithmic": v["log"], "boundaries": v["boundaries"]} for v in case["variables"]]
+    params = [dict({"key": v["key"], "values": "_" if v["scalar"] else ["_"] * v["n"], "logarithmic": v["log"], "boundaries": v["boundaries"]},
+                   **({"values_as_tuple": True} if v.get("as_tuple") and case.get("render", "python") == "python" else {})) for v in case["variables"]]
     mode = {"kind": "calibration", "target_data_path": [str(tmp / "target.npy")],
             "fitness_function": {"func": "pyxel.calibration.fitness.sum_of_abs_residuals"},
             "algorithm": algo or {"type": "sade", "generations": 1, "population_size": 8},
